@@ -1434,6 +1434,10 @@ class Node:
             del self.connections[conn.ident]
         if conn.ident in self.peer_sockets:
             del self.peer_sockets[conn.ident]
+        if conn.ident in self._half_ready_connections:
+            del self._half_ready_connections[conn.ident]
+        if self.socket_peers.get(conn.socket_fileno) is conn:
+            del self.socket_peers[conn.socket_fileno]
         peer = self._find_connection_peer(conn)
         # a peer may briefly have a second connection (e.g. a rejected
         # duplicate); only its current connection affects its state
